@@ -14,8 +14,8 @@ import (
 
 	"golang.org/x/tools/go/ssa"
 
-	"verif/sa/internal/g4"
 	"verif/sa/internal/e5path"
+	"verif/sa/internal/g4"
 	"verif/sa/internal/load"
 	"verif/sa/internal/oblig"
 )
@@ -499,11 +499,19 @@ func EnumTables(p *load.Prog, r *oblig.Report, rule string, lg *g4.Grammar, back
 					}
 				}
 			case *ast.BinaryExpr:
-				if x.Op == token.EQL {
+				// the spellings the printer singles out, whichever way the test is written (== for the container branch,
+				// != for an early return of the scalar case)
+				if x.Op == token.EQL || x.Op == token.NEQ {
 					for _, side := range []ast.Expr{x.X, x.Y} {
-						if tv, ok := ppk.TypesInfo.Types[side]; ok && tv.Value != nil && tv.Value.Kind() == constant.String {
+						if tv, ok := ppk.TypesInfo.Types[side]; ok && tv.Value != nil && tv.Value.Kind() == constant.String && constant.StringVal(tv.Value) != "" {
 							containers[constant.StringVal(tv.Value)] = true
 						}
+					}
+				}
+			case *ast.CaseClause:
+				for _, e := range x.List {
+					if tv, ok := ppk.TypesInfo.Types[e]; ok && tv.Value != nil && tv.Value.Kind() == constant.String && constant.StringVal(tv.Value) != "" {
+						containers[constant.StringVal(tv.Value)] = true
 					}
 				}
 			}
@@ -724,8 +732,32 @@ func constNames(v ssa.Value, depth int) []string {
 		return constNames(x.X, depth+1)
 	case *ssa.Convert:
 		return constNames(x.X, depth+1)
+	case *ssa.Extract:
+		if call, ok := x.Tuple.(*ssa.Call); ok {
+			return resultConstNames(call, x.Index, depth)
+		}
+	case *ssa.Call:
+		return resultConstNames(x, 0, depth)
 	}
 	return []string{"?"}
+}
+
+// resultConstNames: the constants a helper of the same package can return as its idx-th result.
+func resultConstNames(call *ssa.Call, idx int, depth int) []string {
+	h := call.Common().StaticCallee()
+	if h == nil || h.Pkg == nil || call.Parent() == nil || h.Pkg != call.Parent().Pkg || len(h.Blocks) == 0 {
+		return []string{"?"}
+	}
+	var out []string
+	for _, b := range h.Blocks {
+		if ret, ok := b.Instrs[len(b.Instrs)-1].(*ssa.Return); ok && idx < len(ret.Results) {
+			out = append(out, constNames(ret.Results[idx], depth+1)...)
+		}
+	}
+	if len(out) == 0 {
+		return []string{"?"}
+	}
+	return out
 }
 
 func setKey(in []string) string {
